@@ -55,7 +55,9 @@ def handle (prop : String) (impl : String) : String :=
       let evs := ets.map parseEv
       if evs.any (·.isNone) then "!bad-event | - | 0" else
       let es := (evs.filterMap id).filterMap id
-      let rs := (refusals c {} es []).filter (·.startsWith prop)
+      -- a committed record that is never returned is a violation of C05 (read_committed visibility) and of C04
+      -- (every record is returned once; only control records and aborted data may be skipped): C04 reports it too
+      let rs := (refusals c {} es []).filter (fun r => r.startsWith prop || (prop == "C04" && r == "C05.committed-record-never-returned"))
       let nRet := (es.filter (fun e => match e with | .returned _ _ _ _ => true | _ => false)).length
       let nTxn := (es.filter (fun e => match e with | .endDecided _ _ => true | _ => false)).length
       let nt := boolStr (decide (nRet ≥ 10) && (decide (nTxn > 0) || !c.committed))
